@@ -297,6 +297,7 @@ func (c *cluster) call(n *node, spec cmdSpec, read bool) {
 		before[id] = true
 	}
 	readsBefore := n.peer.VerifReadSeq()
+	matchBefore := st.Progress[n.id].Match
 	op := &opState{done: make(chan struct{})}
 	c.mu.Lock()
 	c.log(ev)
@@ -379,7 +380,21 @@ func (c *cluster) call(n *node, spec cmdSpec, read bool) {
 		runtime.Gosched()
 		continue
 	}
-	// let the client goroutine finish its own Ready processing
+	// let the client goroutine hand its entry to raft (the leader's own Match
+	// moves when it appends) and finish its own Ready processing
+	if !read {
+		for t0 := time.Now(); time.Since(t0) < 20*time.Millisecond; {
+			if n.peer.Status().Progress[n.id].Match > matchBefore {
+				break
+			}
+			select {
+			case <-op.done:
+				t0 = time.Time{}
+			default:
+				runtime.Gosched()
+			}
+		}
+	}
 	_ = n.peer.Flush()
 	for i := 0; i < 20; i++ {
 		runtime.Gosched()
@@ -658,8 +673,17 @@ func (c *cluster) scriptNewLeaderRead() {
 	c.pump(500)
 	c.call(c.nodes[1], c.newCmd(rng, "put"), false)
 	op := c.ops[len(c.ops)-1]
+	if os.Getenv("VERIF_CLUSTER_DEBUG") != "" {
+		fmt.Fprintf(os.Stderr, "after put: q=%d leader1=%v\n", c.qlen(), c.nodes[1].peer.Status().RaftState)
+	}
 	for i := 0; i < 500 && c.qlen() > 0; i++ {
+		if os.Getenv("VERIF_CLUSTER_DEBUG") != "" {
+			c.mu.Lock()
+			fmt.Fprintf(os.Stderr, "deliver %v %d->%d\n", c.queue[0].Type, c.queue[0].From, c.queue[0].To)
+			c.mu.Unlock()
+		}
 		c.deliverAt(0, false)
+		runtime.Gosched()
 		select {
 		case <-op.done:
 			i = 500
